@@ -68,6 +68,8 @@ fn check_select<const N: usize>() {
             }
         }
     }
+    kani::cover!(near, "vacuity guard: the no-hit outcome is reachable");
+    kani::cover!(!near, "vacuity guard: the hit outcome is reachable");
     core::mem::forget(v);
 }
 
@@ -75,21 +77,25 @@ fn check_select<const N: usize>() {
 #[kani::unwind(3)]
 fn c20__select__siblings_1() {
     check_select::<1>();
+    kani::cover!(true); // vacuity guard: the end of the harness is reachable under its assumptions
 }
 #[kani::proof]
 #[kani::unwind(4)]
 fn c20__select__siblings_2() {
     check_select::<2>();
+    kani::cover!(true); // vacuity guard: the end of the harness is reachable under its assumptions
 }
 #[kani::proof]
 #[kani::unwind(5)]
 fn c20__select__siblings_3() {
     check_select::<3>();
+    kani::cover!(true); // vacuity guard: the end of the harness is reachable under its assumptions
 }
 #[kani::proof]
 #[kani::unwind(6)]
 fn c20__select__siblings_4() {
     check_select::<4>();
+    kani::cover!(true); // vacuity guard: the end of the harness is reachable under its assumptions
 }
 
 /// a node counts as macro expanded exactly when it has the dummy start 0 or is not inside the
@@ -102,4 +108,5 @@ fn c20__macro_expanded__iff_outside_source() {
     let r = v.is_macro_expanded(mk_span(c, d));
     assert!(r == (c == 0 || !(a <= c && d <= b)));
     core::mem::forget(v);
+    kani::cover!(true); // vacuity guard: the end of the harness is reachable under its assumptions
 }
